@@ -18,6 +18,30 @@ fn main() {
         eprintln!("usage: vp <ID> <quick|thorough> | vp <ID> --replay <file>");
         std::process::exit(2);
     }
+    if args[1] == "fuzz-targets" {
+        // vp fuzz-targets <ID>: the libFuzzer targets that serve a property
+        let id = args[2].to_uppercase();
+        for (t, p) in vp::fuzz_entry::TARGETS {
+            if *p == id {
+                println!("{t}");
+            }
+        }
+        std::process::exit(0);
+    }
+    if args[1] == "fuzz-seeds" {
+        // vp fuzz-seeds <target> <dir>: write the seed corpus
+        let (Some(target), Some(dir)) = (args.get(2), args.get(3)) else {
+            eprintln!("usage: vp fuzz-seeds <target> <dir>");
+            std::process::exit(2);
+        };
+        let _ = std::fs::create_dir_all(dir);
+        let seeds = vp::fuzz_entry::seeds(target);
+        for (i, s) in seeds.iter().enumerate() {
+            let _ = std::fs::write(format!("{dir}/seed-{i:04}"), s);
+        }
+        println!("{} seeds", seeds.len());
+        std::process::exit(0);
+    }
     if args[1] == "fuzz-replay" {
         // vp fuzz-replay <target> <file>: re-judge a raw libFuzzer input with the property's oracle
         let (Some(target), Some(path)) = (args.get(2), args.get(3)) else {
